@@ -8,7 +8,7 @@ from lib import tt
 from lib.rulelib import (AtomOracle, adts_in, arg_syms, closures_in, get_fn, has_res, res_calls,
                          rows, short, syms, walk)
 from lib.facts import callee
-from lib import purity
+from lib import purity, hom
 
 CORE = "cedar_policy_core::authorizer::"
 PR = CORE + "partial_response::PartialResponse"
@@ -92,7 +92,11 @@ def bucket(chk, facts, pmap):
                     return 1 if oc == "ok_true" else 0
                 return None
 
-            it = tt.Interp(f, AtomOracle(res_disc=res_disc, res_bool=res_bool))
+            # helpers of the authorizer module are seen through (bounded inlining); the evaluator stays opaque
+            orc = hom.InlineOracle(facts, 2, allow=("cedar_policy_core::authorizer::",))
+            orc._res_disc = res_disc
+            orc._res_bool = res_bool
+            it = tt.Interp(f, orc)
             try:
                 ret, trace = it.run(arg_syms(f))
             except tt.Undecided as e:
